@@ -395,6 +395,117 @@ theorem C12_default_db (w : World) (q : Query) (db : DB) (h : (getDefault w [] q
           rw [he] at h
           simp at h
 
+/-! ## The two repairs proposed in round 5 (fixes/C12-4.diff, fixes/C12-2.diff)
+
+Target (the property's sentence, FALSE for the map as coded — `C12_4_coded_keeps_dotted`, `C12_4_coded_keeps_star`):
+`∀ kv ∈ (fromData known mand canon forget).canonical, NameForgotten forget kv.1 = False ∧ NameForgotten forget kv.2 = False`. -/
+
+/-- A canonical key/value `k` (a dotted name) is named by the forget list: as `from a import b`, as `import a.b`,
+    or through a star entry (`Forgets`: exact or star). -/
+def NameForgotten (r : List Import) (k : Str) : Prop :=
+  Forgets r (importOfName k) ∨ (⟨k, k⟩ : Import) ∈ r
+
+theorem nameRemoved_iff (r : List Import) (k : Str) : nameRemoved r k = true ↔ NameForgotten r k := by
+  unfold nameRemoved NameForgotten Forgets StarForgets
+  simp only [Bool.or_eq_true, decide_eq_true_eq]
+  have hstar : (match (importOfName k).split.1 with
+      | some m => (dottedPrefixes m).any fun pfx => decide ((some pfx) ∈
+          (r.filterMap fun x => if x.split.2 = star then some x.split.1 else none))
+      | none => false) = true ↔
+      ∃ x ∈ r, x.split.2 = star ∧ ∃ m, (importOfName k).split.1 = some m ∧ ∃ pfx ∈ dottedPrefixes m, x.split.1 = some pfx := by
+    cases hm : (importOfName k).split.1 with
+    | none => simp
+    | some m =>
+      simp only [List.any_eq_true, decide_eq_true_eq, mem_starMods]
+      constructor
+      · rintro ⟨pfx, hp, x, hx, hs, he⟩
+        exact ⟨x, hx, hs, m, rfl, pfx, hp, he⟩
+      · rintro ⟨x, hx, hs, m', hm', pfx, hp, he⟩
+        have : m' = m := (Option.some.inj hm').symm
+        subst this
+        exact ⟨pfx, hp, x, hx, hs, he⟩
+  constructor
+  · rintro ((h | h) | h)
+    · exact .inl (.inl h)
+    · exact .inr h
+    · exact .inl (.inr (hstar.1 h))
+  · rintro ((h | h) | h)
+    · exact .inl (.inl h)
+    · exact .inr (hstar.2 h)
+    · exact .inl (.inr h)
+
+/-- With fixes/C12-4.diff no canonical entry survives whose key or value the forget list names — dotted names
+    (`import a.b`) and star entries included.  This is the sentence "which also removes matching … canonical entries"
+    at the strength `C12_forget_everywhere` has for known and mandatory imports. -/
+theorem C12_forget_canonical_fixed (known mand : List Import) (canon : List (List (Str × Str))) (forget : List Import) :
+    let db := fromDataFixed known mand canon forget
+    (∀ kv ∈ db.canonical, ¬ NameForgotten forget kv.1 ∧ ¬ NameForgotten forget kv.2) ∧
+    (∀ kv ∈ mergeMaps canon, ¬ NameForgotten forget kv.1 → ¬ NameForgotten forget kv.2 → kv ∈ db.canonical) ∧
+    db.known = (fromData known mand canon forget).known ∧ db.mandatory = (fromData known mand canon forget).mandatory ∧
+    db.forget = forget := by
+  intro db
+  refine ⟨?_, ?_, rfl, rfl, rfl⟩
+  · intro kv hkv
+    have : kv ∈ mapWithoutFixed (mergeMaps canon) forget := hkv
+    unfold mapWithoutFixed at this
+    rw [List.mem_filter] at this
+    have h2 := this.2
+    simp only [Bool.and_eq_true, Bool.not_eq_true'] at h2
+    constructor
+    · intro h; have := (nameRemoved_iff forget kv.1).2 h; rw [h2.1] at this; exact Bool.noConfusion this
+    · intro h; have := (nameRemoved_iff forget kv.2).2 h; rw [h2.2] at this; exact Bool.noConfusion this
+  · intro kv hkv h1 h2
+    show kv ∈ mapWithoutFixed (mergeMaps canon) forget
+    unfold mapWithoutFixed
+    rw [List.mem_filter]
+    refine ⟨hkv, ?_⟩
+    have e1 : nameRemoved forget kv.1 = false := by
+      cases h : nameRemoved forget kv.1 with
+      | false => rfl
+      | true => exact absurd ((nameRemoved_iff _ _).1 h) h1
+    have e2 : nameRemoved forget kv.2 = false := by
+      cases h : nameRemoved forget kv.2 with
+      | false => rfl
+      | true => exact absurd ((nameRemoved_iff _ _).1 h) h2
+    simp [e1, e2]
+
+/-- The repaired map removes at least what the coded one removes, so it can be computed from the database as coded
+    (what the driver does for `canonical_fixed`). -/
+theorem fromDataFixed_eq_fixCanon (known mand : List Import) (canon : List (List (Str × Str))) (forget : List Import) :
+    fromDataFixed known mand canon forget = (fromData known mand canon forget).fixCanon := by
+  unfold fromDataFixed DB.fixCanon fromData
+  simp only [DB.mk.injEq, true_and]
+  unfold mapWithoutFixed mapWithout
+  rw [List.filter_filter]
+  apply List.filter_congr
+  intro kv _
+  have key : ∀ k, decide (importOfName k ∈ forget) = true → nameRemoved forget k = true := by
+    intro k h
+    unfold nameRemoved
+    simp only [h, Bool.true_or]
+  cases h1 : decide (importOfName kv.1 ∈ forget) <;> cases h2 : decide (importOfName kv.2 ∈ forget) <;>
+    simp [h1, h2, key]
+
+/-- With fixes/C12-2.diff a target that is not the name of one of the process's streams starts the search at its own
+    directory: the nearest safe ancestor (the target itself if it is a directory), whatever the current directory and
+    wherever the tree is mounted (`/devel/…`, `/dev/shm/…`). -/
+theorem C12_target_dir_fixed (w : World) (t : Str) (hfix : w.devStreamsOnly = true)
+    (hnd : isDevStream (rawTarget w t) = false) :
+    targetDirname w t =
+      match ((if w.isDir (absPath w.cwd t) then [absPath w.cwd t] else []) ++ (ancestors (absPath w.cwd t)).drop 1).find? safePath with
+      | none => .error .valueError
+      | some sp => .ok sp := by
+  unfold targetDirname isDevTarget
+  simp only [hfix, hnd, if_true, Bool.false_eq_true, false_and, if_false]
+  split <;> (rename_i h; rw [h])
+
+/-- … and the answer does not depend on where the tree is mounted. -/
+theorem C12_target_dir_mount_blind (w : World) (t m : Str) (hfix : w.devStreamsOnly = true)
+    (h1 : isDevStream (rawTarget w t) = false) (h2 : isDevStream (rawTarget { w with mount := m } t) = false) :
+    targetDirname { w with mount := m } t = targetDirname w t := by
+  rw [C12_target_dir_fixed w t hfix h1, C12_target_dir_fixed { w with mount := m } t hfix h2]
+  rfl
+
 /-! ## Witnesses and satisfiability of the hypotheses -/
 
 section Witness
@@ -427,6 +538,37 @@ example : noForgottenParentB okDB = true := by decide
 example : okDB.known = [⟨s "p.m.f", s "f"⟩, ⟨s "q.r", s "q.r"⟩] := by decide
 example : okDB.mandatory = [] := by decide      -- `from q import r` falls to the star entry `from q import *`
 example : okDB.canonical = [(s "a.b", s "q.r")] := by decide   -- the map matches exactly only
+
+/-- C12-4 (a): `__canonical_imports__ = {'a.b': 'z.b', 'y.b': 'a.b'}`, `__forget_imports__ = ['import a.b']`:
+    the map as coded keeps both entries (negation of the target on a concrete input), the repaired one drops them. -/
+theorem C12_4_coded_keeps_dotted :
+    (fromData [] [] [[(s "a.b", s "z.b"), (s "y.b", s "a.b")]] [⟨s "a.b", s "a.b"⟩]).canonical
+      = [(s "a.b", s "z.b"), (s "y.b", s "a.b")] := by decide
+
+theorem C12_4_fixed_drops_dotted :
+    (fromDataFixed [] [] [[(s "a.b", s "z.b"), (s "y.b", s "a.b")]] [⟨s "a.b", s "a.b"⟩]).canonical = [] := by decide
+
+/-- C12-4 (b): `{'m.a': 'n.a', 'q.r': 'm.x.s', 'q.t': 'mm.s'}` with `__forget_imports__ = ['from m import *']`. -/
+theorem C12_4_coded_keeps_star :
+    (fromData [] [] [[(s "m.a", s "n.a"), (s "q.r", s "m.x.s"), (s "q.t", s "mm.s")]] [⟨s "m.*", s "*"⟩]).canonical
+      = [(s "m.a", s "n.a"), (s "q.r", s "m.x.s"), (s "q.t", s "mm.s")] := by decide
+
+theorem C12_4_fixed_drops_star :
+    (fromDataFixed [] [] [[(s "m.a", s "n.a"), (s "q.r", s "m.x.s"), (s "q.t", s "mm.s")]] [⟨s "m.*", s "*"⟩]).canonical
+      = [(s "q.t", s "mm.s")] := by decide
+
+/-- C12-2: a tree mounted at `/devel` (or `/dev/shm/x`), current directory `/c`, target `/proj/x.py`: as coded the
+    search starts at the current directory, with the repair at `/proj`; `/dev/stdin` means the current directory in both. -/
+def devW (fixed : Bool) : World :=
+  { rootDev := 0, rootCh := [(s "c", .dir 0 []), (s "proj", .dir 0 [])], home := s "/c", cwd := [s "c"], etc := [],
+    mount := s "/devel", devStreamsOnly := fixed }
+
+theorem C12_2_coded_uses_cwd : (targetDirname (devW false) (s "/proj/x.py")).toOption = some [s "c"] := by decide
+theorem C12_2_fixed_uses_target : (targetDirname (devW true) (s "/proj/x.py")).toOption = some [s "proj"] := by decide
+theorem C12_2_stream_is_cwd : (targetDirname (devW true) (s "/dev/stdin")).toOption = some [s "c"] ∧
+    (targetDirname (devW true) (s "/dev/fd/63")).toOption = some [s "c"] ∧
+    (targetDirname (devW false) (s "/dev/stdin")).toOption = some [s "c"] := by decide
+example : isDevStream (rawTarget (devW true) (s "/proj/x.py")) = false := by decide   -- hypothesis of C12_target_dir_fixed
 
 /-- `FileOK` files in which the forget directive stands before, between and after the imports. -/
 def exFiles : List FileC :=
